@@ -1,5 +1,6 @@
 import Proofs.FormatPipeRange
 import Proofs.FormatCallRangeText
+import Proofs.FormatCallRangeMods
 import Proofs.FormatPipeParse
 
 /-!
